@@ -15,6 +15,7 @@ RULE = ("exhaustive grid |src| 0..12 x |dest| 1..8 x evenly x max_connects in {1
         "200, large destination sets (64..5000) with a small remainder in the last round, and an end-to-end sample "
         "against a real World; non-trivial = |src| > |dest| or |src| = "
         "|dest|*max_connects or finite max_connects; distinct = distinct (sizes, flags, seed) tuples")
+RULE += '; a finite max_connects as int or as float with integral value'
 ASSUMPTIONS = [
     "the helpers use only World.connect (checked against a recording stand-in; a sample runs against a real World)",
     "the seed of the global random module is part of the case (the helpers draw from it)",
